@@ -28,7 +28,7 @@ def dims(base):
         "seq0": SEQS, "seqrest": SEQS, "ss0": [1, 0, 75, 76, 253], "ssrest": [1, 0, 23],
         "spk0": [25, 0, 1, 253], "spkrest": [22, 0],
         "wit0": [[72, 33], [], [1], [253]], "witrest": [[1], [], [2, 0]],
-        "version": [1, 2, 2 ** 32 - 1], "locktime": [0, 499999999, 2 ** 32 - 1],
+        "version": [1, 2, 2 ** 32 - 1, 0, 2 ** 31], "locktime": [0, 499999999, 2 ** 32 - 1, 1],
     }
     if base == "segwit":
         d["segwit"] = [True, False]
